@@ -43,7 +43,8 @@ ALPHABETS = [
     ["ch", "firenet", "svc"],
     ["x", "a-b", "9lives"],  # one letter, hyphen, leading digit
     ["\U0001F34A", "ws", "a_b"],  # non-BMP label, underscore
-    ["com", "ni\u00f1o", "x\u00e9non"],  # A-labels whose payload starts with a letter of the ACE prefix (xn--nio-8ma, xn--xnon-bpa)
+    ["com", "ni\u00f1o", "x\u00e9non"],
+    ["fr", "rh\u00f4ne-alpes", "xn--rhne-alpes-sbb"],  # an A-label with a hyphen inside its ASCII part  # A-labels whose payload starts with a letter of the ACE prefix (xn--nio-8ma, xn--xnon-bpa)
     ["de", "stra\u00dfe", "strasse"],  # a letter whose case mapping does not round-trip (sharp s) next to its folded twin
 ]
 FOREIGN = "zz"
